@@ -67,6 +67,9 @@ type c04Cfg struct {
 	// SyncErr: every recording sink's Sync reports an error after doing its work (a terminal or pipe answering EINVAL): the
 	// error must not keep Logger.Sync from reaching the other branches
 	SyncErr bool `json:"syncerr,omitempty"`
+	// Tmpl: a shared logger that is only ever used as a template (never logged through): "" (the base logger) | with |
+	// lazy (WithLazy with a field slice that has spare capacity) | sugarlazy (Sugar().WithLazy(…).Desugar()) | lazylazy
+	Tmpl string `json:"tmpl,omitempty"`
 }
 
 type c04Act struct {
@@ -225,6 +228,7 @@ type c04World struct {
 	recNames  []string
 	base      *zap.Logger
 	children  []*zap.Logger
+	tmpl      *zap.Logger
 	sinks     []*c04SinkRef
 	bws       []*zapcore.BufferedWriteSyncer
 	clocks    []*c04Clock
@@ -378,7 +382,47 @@ func c04Build(cfg *c04Cfg, oracle bool) *c04World {
 	for c := 0; c < cfg.Children; c++ {
 		w.children = append(w.children, w.base.With(zap.Int("child", c), zap.String("tag", strings.Repeat("c", c*7))))
 	}
+	w.tmpl = c04Template(w.base, cfg.Tmpl)
 	return w
+}
+
+// c04Template derives the shared template logger; nobody ever logs through it, goroutines only derive from it.
+func c04Template(base *zap.Logger, kind string) *zap.Logger {
+	spare := func(fs ...zap.Field) []zap.Field { return append(make([]zap.Field, 0, len(fs)+6), fs...) }
+	switch kind {
+	case "with":
+		return base.With(zap.String("tmpl", "with"), zap.Int("tk", 1))
+	case "lazy":
+		return base.WithLazy(spare(zap.String("tmpl", "lazy"), zap.Int("tk", 1))...)
+	case "sugarlazy":
+		return base.Sugar().WithLazy("tmpl", "sugarlazy", "tk", 1).Desugar()
+	case "lazylazy":
+		return base.WithLazy(spare(zap.String("tmpl", "lazy"))...).Sugar().WithLazy("tk", 1, "tv", "x").Desugar()
+	}
+	return base
+}
+
+// c04Derive builds a goroutine-local child of src in one of the derivation flavours of the API.
+func c04Derive(src *zap.Logger, flavour string, g, seq int) *zap.Logger {
+	id := c04ID(g, seq)
+	switch flavour {
+	case "withlazy": // literal variadic call: the field slice has no spare capacity
+		return src.WithLazy(zap.Int("dl", seq), zap.String("dg", id))
+	case "withlazycap": // caller-owned slice with spare capacity
+		fs := append(make([]zap.Field, 0, 8), zap.Int("dl", seq), zap.String("dg", id))
+		return src.WithLazy(fs...)
+	case "sugarlazy":
+		return src.Sugar().WithLazy("ds", seq, "dg", id).Desugar()
+	case "sugarwith":
+		return src.Sugar().With("ds", seq, "dg", id).Desugar()
+	case "named":
+		return src.Named(fmt.Sprintf("n%d", g))
+	case "withopts":
+		return src.WithOptions(zap.Fields(zap.Int("do", seq), zap.String("dg", id)))
+	case "roundtrip":
+		return src.Sugar().Desugar()
+	}
+	return src.With(zap.Int("dw", seq), zap.String("dg", id))
 }
 
 func (w *c04World) cleanup() {
@@ -497,6 +541,12 @@ func (w *c04World) runG(g int, acts []c04Act, after func(seq int)) {
 				}
 			case "with":
 				local = local.With(zap.Int("w", seq), zap.String("g", c04ID(g, seq)))
+			case "derive": // Fe = flavour; Child ≥ 1: from the shared template, else from the goroutine's current logger
+				src := local
+				if a.Child >= 1 {
+					src = w.tmpl
+				}
+				local = c04Derive(src, a.Fe, g, seq)
 			case "child":
 				if len(w.children) > 0 && a.Child >= 0 {
 					local = w.children[a.Child%len(w.children)]
@@ -816,10 +866,15 @@ func c04Exec(raw json.RawMessage) Result {
 		panic("unknown op kind " + op.K)
 	}
 	shape := c04Shape(&op)
-	if concWD.exhausted() {
+	if concWD.exhausted() || c04RunBudget.exhausted() {
 		return concSkipped(shape)
 	}
+	c04RunBudget.mark('S')
 	w, timeout, dump := c04RunOnce(&op)
+	if timeout {
+		c04RunBudget.mark('T')
+	}
+	c04RunBudget.mark('D')
 	defer w.cleanup()
 	if timeout {
 		if child, fine := concRerunAlone("C04", raw); fine {
